@@ -25,8 +25,11 @@ CONSTANTS Seeds,      \* set of seeds for mode "seeded"
           OneGap,     \* TRUE: mode "onegap"
           WithStatic  \* TRUE: also print Static!Valid and the expected name diagnostics
 
+\* (texts carried in TLC state variables are ASCII only: TLC's disk-backed state queue keeps one byte per character and
+\*  sign-extends it on the way back; the placeholder ^ is replaced by accented / Cyrillic / CJK / astral characters by the
+\*  harness after printing, which keeps every position because positions count code points)
 \* ---- layout and positions ----------------------------------------------
-Lay == <<" ", "\n", "  ", "\t", " /* é c */ ", "\r\n", " // x é\n", "\n\n ", " /* a\n b */", " \t ", "\r", " \r ", "\n\r">>
+Lay == <<" ", "\n", "  ", "\t", " /* ^ c */ ", "\r\n", " // x ^\n", "\n\n ", " /* a\n b */", " \t ", "\r", " \r ", "\n\r">>
 Punct == {"[", "]", "{", "}", "(", ")", "=", ",", "*"}
 Tight(prev, cur) == prev \in Punct \/ cur \in Punct
 LayFor(seed, i, prev, cur) ==
